@@ -2,7 +2,7 @@
    Statements only; proofs are in Proofs/Errors.v (and Proofs/Refs.v for locality).
    [dcls_base] - which class derives from which - is GENERATED from collada/common.py. *)
 From Coq Require Import List Bool.
-From PC Require Import Base.Outcome Base.Libs Gen.Params Model.Errors Proofs.Errors.
+From PC Require Import Base.Outcome Base.Libs Gen.Params Model.Errors Proofs.Errors Model.Refs Proofs.Refs.
 Import ListNotations.
 
 (* isinstance semantics of the ignore mask: the exact class masks; the base class DaeError masks
@@ -75,6 +75,14 @@ Proof.
   - apply load_lib_nothing_invented.
 Qed.
 Print Assumptions C08_containment.
+
+(* ... and when does an item load to the same value?  In the reference model (Model/Refs.v) an
+   object's loaded value is a function of its own content and of what its references resolve
+   to: if the damage touches neither, the object is loaded exactly as in the undamaged document *)
+Theorem C08_containment_local :
+  forall o o' it, (forall r, In r (it_refs it) -> resolve o r = resolve o' r) -> load_item o it = load_item o' it.
+Proof. exact load_item_local. Qed.
+Print Assumptions C08_containment_local.
 
 (* only DaeErrors escape and only DaeErrors are recorded, as long as the loaders raise
    DaeErrors and the built-in parsing exceptions *)
